@@ -90,7 +90,7 @@ func (p *Program) parseContracts(path string, overlay []byte) error {
 		ln   int
 	}
 	var lines []lline
-	reStart := regexp.MustCompile(`^(func|interface|spec|lemma|axiom|autolemma|autoaxiom|foldaxiom|comparable|appendlemma|ghostmap|guarded|fieldinv|eleminv|typeinv|requires|ensures|assumes|invariant|preserves|decreases|assigns|inline|use|props|trust|check|loop|ghost|abstract|bounded|results|pure)\b`)
+	reStart := regexp.MustCompile(`^(func|interface|spec|lemma|axiom|autolemma|autoaxiom|foldaxiom|comparable|appendlemma|ghostmap|guarded|lockinv|fieldinv|eleminv|typeinv|requires|ensures|assumes|invariant|preserves|decreases|assigns|inline|use|props|trust|check|loop|ghost|abstract|bounded|results|pure)\b`)
 	for ln, raw := range rawLines {
 		t := strings.TrimSpace(raw)
 		if !strings.HasPrefix(t, "//@") {
@@ -212,7 +212,45 @@ func (p *Program) parseContracts(path string, overlay []byte) error {
 				return fail("guarded: %s needs direct fields %s and %s", tn, fn, f[3])
 			}
 			arr, _ := p.fieldArray(obj.Type(), fi)
-			p.guards[arr] = guardInfo{muField: f[3], st: obj.Type(), muIdx: mi, muOff: fieldOffset(st, mi), stable: len(f) > 4 && f[4] == "stable"}
+			p.guards[arr] = guardInfo{fIdx: fi, muField: f[3], st: obj.Type(), muIdx: mi, muOff: fieldOffset(st, mi), stable: len(f) > 4 && f[4] == "stable"}
+			cur = nil
+			last = nil
+			continue
+		case strings.HasPrefix(t, "lockinv "):
+			// lockinv T.mu: <expr over self>   invariant of the state guarded by the mutex field T.mu: assumed when the
+			// mutex is acquired, to be re-established when it is released (used in interference mode)
+			rest := strings.TrimSpace(t[len("lockinv "):])
+			ci := strings.Index(rest, ":")
+			if ci < 0 {
+				return fail("lockinv T.mu: <expr>")
+			}
+			key, src := strings.TrimSpace(rest[:ci]), strings.TrimSpace(rest[ci+1:])
+			dot := strings.Index(key, ".")
+			if dot < 0 {
+				return fail("lockinv T.mu: <expr>")
+			}
+			obj := p.pkg.Types.Scope().Lookup(key[:dot])
+			if obj == nil {
+				return fail("lockinv: unknown type %s", key[:dot])
+			}
+			st, ok := structOf(obj.Type())
+			if !ok {
+				return fail("lockinv: %s is not a struct", key[:dot])
+			}
+			mi := -1
+			for i := 0; i < st.NumFields(); i++ {
+				if st.Field(i).Name() == key[dot+1:] {
+					mi = i
+				}
+			}
+			if mi < 0 {
+				return fail("lockinv: no field %s", key)
+			}
+			e, err := parseExpr(src)
+			if err != nil {
+				return fail("%v", err)
+			}
+			p.lockInvs[key] = &lockInv{st: obj.Type(), muIdx: mi, cl: &Clause{Src: src, Expr: e, Line: ln + 1}}
 			cur = nil
 			last = nil
 			continue
@@ -343,7 +381,13 @@ func (p *Program) parseContracts(path string, overlay []byte) error {
 				if m2 == nil {
 					return fail("bad loop clause: %s", parts[1])
 				}
-				c2 := &Clause{Label: strings.Trim(m2[2], "[]"), Src: strings.TrimSpace(m2[4]), Line: ln + 1}
+				var pl2 []string
+				if m2[3] != "" {
+					for _, x := range strings.Split(strings.Trim(m2[3], "{}"), ",") {
+						pl2 = append(pl2, strings.TrimSpace(x))
+					}
+				}
+				c2 := &Clause{Label: strings.Trim(m2[2], "[]"), Props: pl2, Src: strings.TrimSpace(m2[4]), Line: ln + 1}
 				switch m2[1] {
 				case "invariant":
 					cur.Loops[n].Invs = append(cur.Loops[n].Invs, c2)
@@ -593,4 +637,51 @@ func parseLemmaDecl(s string) (*Lemma, error) {
 		return nil, err
 	}
 	return &Lemma{Name: strings.TrimSpace(s[:open]), Params: params, Body: e, Src: src, Pats: pats}, nil
+}
+
+
+// filterForInterference: in interference mode a clause that speaks about lock-guarded state is a statement about one
+// thread's sequential view and is neither assumed nor checked unless it is explicitly tagged C20 (then it must hold
+// under interference). What remains are the lock discipline, the lock invariants and safety.
+func (p *Program) filterForInterference() {
+	var names []string
+	for _, g := range p.guards {
+		st, _ := structOf(g.st)
+		names = append(names, "."+st.Field(g.fIdx).Name())
+	}
+	keep := func(c *Clause) bool {
+		if hasStr(c.Props, "C20") {
+			return true
+		}
+		for _, n := range names {
+			if i := strings.Index(c.Src, n); i >= 0 {
+				rest := c.Src[i+len(n):]
+				if rest == "" || !(rest[0] == '_' || rest[0] >= 'a' && rest[0] <= 'z' || rest[0] >= 'A' && rest[0] <= 'Z' || rest[0] >= '0' && rest[0] <= '9') {
+					return false
+				}
+			}
+		}
+		return true
+	}
+	filter := func(cs []*Clause) []*Clause {
+		var out []*Clause
+		for _, c := range cs {
+			if keep(c) {
+				out = append(out, c)
+			}
+		}
+		return out
+	}
+	do := func(c *Contract) {
+		c.Requires, c.Ensures, c.Assumes = filter(c.Requires), filter(c.Ensures), filter(c.Assumes)
+		for _, l := range c.Loops {
+			l.Invs, l.Preserves = filter(l.Invs), filter(l.Preserves)
+		}
+	}
+	for _, c := range p.contracts {
+		do(c)
+	}
+	for _, c := range p.ifaceCons {
+		do(c)
+	}
 }
